@@ -90,7 +90,12 @@ def main():
     ap.add_argument("--suite-tags", default="", help="additionally require the suite to pass with these tags")
     ap.add_argument("--out", default="")
     a = ap.parse_args()
-    src = os.path.join("/repo", a.file)
+    scratch = "/tmp/mut/repo"
+    shutil.rmtree("/tmp/mut", ignore_errors=True)
+    os.makedirs(scratch)
+    # the committed HEAD of /repo, not its working tree (which may carry a seeded change being tested)
+    subprocess.run("git -C /repo archive HEAD | tar -x -C " + scratch, shell=True, check=True)
+    src = os.path.join(scratch, a.file)
     lines = open(src).read().splitlines(keepends=True)
     lo, hi = 0, len(lines)
     if a.lines:
@@ -99,10 +104,6 @@ def main():
     cands = candidates(lines, lo, hi)
     rnd = random.Random(a.seed)
     rnd.shuffle(cands)
-    scratch = "/tmp/mut/repo"
-    shutil.rmtree("/tmp/mut", ignore_errors=True)
-    os.makedirs("/tmp/mut")
-    run(["rsync", "-a", "--exclude", ".git", "/repo/", scratch + "/"])
     results = []
     outp = a.out or os.path.join(VERIF, "seeded", "mutation-" + os.path.basename(a.file) + ".json")
     done = 0
